@@ -213,15 +213,36 @@ func (t *tree) nodes() int {
 	return n
 }
 
-func renderCase(s *hx.Stream, cols, rows int, t *tree, tag string) {
+// frame is one Window.New(col,row,cols,rows) call applied to the terminal window before render
+type frame struct{ Col, Row, W, H int }
+
+func relTag(a, b int) string {
+	switch {
+	case a < b:
+		return "<"
+	case a == b:
+		return "="
+	}
+	return ">"
+}
+
+// renderCase renders t into the terminal window (frames == nil: stream render) or into the
+// terminal window narrowed by the given Window.New calls (stream renderwin).
+func renderCase(s *hx.Stream, cols, rows int, frames []frame, withFrames bool, t *tree, tags ...string) {
 	fc := hx.NewFakeConsole(hx.ProfileFromMask(0, rows, cols))
 	vx, err := vaxis.New(vaxis.Options{WithConsole: fc, NoSignals: true})
 	if err != nil {
 		panic(err)
 	}
 	var grid [][]int
+	ww, wh := cols, rows
 	panicked, _ := hx.Catch(func() {
-		vxfw.VerifRender(t.surface(), vx.Window(), nil)
+		win := vx.Window()
+		for _, f := range frames {
+			win = win.New(f.Col, f.Row, f.W, f.H)
+		}
+		ww, wh = win.Width, win.Height
+		vxfw.VerifRender(t.surface(), win, nil)
 		for _, line := range vx.VerifScreenNext() {
 			r := make([]int, len(line))
 			for i, c := range line {
@@ -239,9 +260,27 @@ func renderCase(s *hx.Stream, cols, rows int, t *tree, tag string) {
 	for i, r := range grid {
 		gs[i] = hx.IntList(r)
 	}
-	term := hx.Tuple(hx.Tuple(hx.Z(int64(cols)), hx.Z(int64(rows)), t.coq()), hx.Tuple(hx.Z(int64(out)), hx.List(gs)))
-	s.Add(term, map[string]interface{}{"stream": "render", "cols": cols, "rows": rows, "tree": t.json(), "outcome": out, "screen": grid},
-		t.nodes() > 1, tag, fmt.Sprintf("nodes=%d", min(t.nodes(), 9)))
+	obs := hx.Tuple(hx.Z(int64(out)), hx.List(gs))
+	js := map[string]interface{}{"cols": cols, "rows": rows, "tree": t.json(), "outcome": out, "screen": grid}
+	var term string
+	if withFrames {
+		fs := make([]string, len(frames))
+		for i, f := range frames {
+			fs[i] = hx.Tuple(hx.Z(int64(f.Col)), hx.Z(int64(f.Row)), hx.Z(int64(f.W)), hx.Z(int64(f.H)))
+		}
+		term = hx.Tuple(hx.Tuple(hx.Z(int64(cols)), hx.Z(int64(rows)), hx.List(fs), t.coq()), obs)
+		js["stream"], js["window_new_calls"] = "renderwin", frames
+	} else {
+		term = hx.Tuple(hx.Tuple(hx.Z(int64(cols)), hx.Z(int64(rows)), t.coq()), obs)
+		js["stream"] = "render"
+	}
+	// how the root surface relates to the window it is rendered into (a window exceeds its
+	// surface only at the root)
+	tags = append(tags, fmt.Sprintf("nodes=%d", min(t.nodes(), 9)), "rootW"+relTag(t.W, ww)+"win", "rootH"+relTag(t.H, wh)+"win")
+	if t.wrapDepth() > 0 {
+		tags = append(tags, fmt.Sprintf("wrappers=%d", min(t.wrapDepth(), 3)))
+	}
+	s.Add(term, js, t.nodes() > 1, tags...)
 }
 
 func min(a, b int) int {
@@ -251,9 +290,150 @@ func min(a, b int) int {
 	return b
 }
 
+func max(a, b int) int {
+	if a > b {
+		return a
+	}
+	return b
+}
+
+// wrapDepth: length of the chain of children at (0,0) that have exactly their parent's size,
+// starting at the root
+func (t *tree) wrapDepth() int {
+	for _, k := range t.Kids {
+		if k.Col == 0 && k.Row == 0 && k.T.W == t.W && k.T.H == t.H {
+			return 1 + k.T.wrapDepth()
+		}
+	}
+	return 0
+}
+
+func filled(w, h int) *tree {
+	t := &tree{W: w, H: h, Buf: make([]int, w*h)}
+	for i := range t.Buf {
+		nextID++
+		t.Buf[i] = nextID
+	}
+	return t
+}
+
+// an offset for a child of size cw x ch in a parent of size pw x ph, by class: inside, hanging
+// over the right/bottom edge, over the left/top edge (negative offset), just touching the edge
+// from outside, far outside, and exactly covering (0,0)
+func genOffset(p, c int) int {
+	switch cfg.Rand.Intn(7) {
+	case 0:
+		return 0
+	case 1: // inside
+		if p > c {
+			return cfg.Rand.Intn(p - c + 1)
+		}
+		return 0
+	case 2: // overhangs the far edge by 1..c-1 (or lies at it)
+		return p - c + 1 + cfg.Rand.Intn(max(c, 1))
+	case 3: // overhangs the near edge
+		return -1 - cfg.Rand.Intn(max(c, 1))
+	case 4: // touches the far edge from outside
+		return p
+	case 5:
+		return p + 1 + cfg.Rand.Intn(3)
+	default:
+		return cfg.Rand.Intn(p+3) - 1
+	}
+}
+
+// genShaped: trees in which the shapes layouts really produce are frequent: a wrapper (child at
+// (0,0) of exactly the parent's size, or one cell off in size or position), children that stick
+// out of their parent, children larger than their parent, negative offsets
+func genShaped(depth, w, h int) *tree {
+	t := filled(w, h)
+	if depth == 0 {
+		return t
+	}
+	n := cfg.Rand.Intn(4)
+	for i := 0; i < n; i++ {
+		var k kid
+		k.Z = pick([]int{0, 0, 0, 1, -1, 2})
+		switch cfg.Rand.Intn(6) {
+		case 0, 1: // wrapper: same size at (0,0)
+			k.T = genShaped(depth-1, w, h)
+		case 2: // almost a wrapper: one cell off in size or position
+			cw, ch := w, h
+			switch cfg.Rand.Intn(6) {
+			case 0:
+				cw++
+			case 1:
+				ch++
+			case 2:
+				cw = max(cw-1, 0)
+			case 3:
+				ch = max(ch-1, 0)
+			case 4:
+				k.Col = pick([]int{1, -1})
+			default:
+				k.Row = pick([]int{1, -1})
+			}
+			k.T = genShaped(depth-1, cw, ch)
+		default:
+			cw, ch := pick([]int{0, 1, 2, 3, 4, 5, 8}), pick([]int{0, 1, 2, 3, 4})
+			if cfg.Rand.Intn(4) == 0 {
+				cw, ch = w+cfg.Rand.Intn(3), h+cfg.Rand.Intn(3) // at least as large as the parent
+			}
+			k.Col, k.Row = genOffset(w, cw), genOffset(h, ch)
+			k.T = genShaped(depth-1, cw, ch)
+		}
+		t.Kids = append(t.Kids, k)
+	}
+	return t
+}
+
+// wrapperTree: a root of size w x h, k same-size children at (0,0) nested in each other, and in
+// the innermost one the given children
+func wrapperTree(w, h, k int, inner []kid) *tree {
+	t := filled(w, h)
+	cur := t
+	for i := 0; i < k; i++ {
+		c := filled(w, h)
+		cur.Kids = append(cur.Kids, kid{T: c})
+		cur = c
+	}
+	cur.Kids = append(cur.Kids, inner...)
+	return t
+}
+
 func renderStream() *hx.Stream {
 	s := hx.NewStream("render", "model.Surface", "render_input * render_obs", "c14_render_mismatches", "c14_render_violations")
 	s.ShardMax = 100
+	// directed: root surface smaller than / equal to / larger than the terminal window on each
+	// axis; 0..3 same-size wrappers at (0,0); in the innermost wrapper one child inside and one
+	// child that sticks out on one side (or lies inside)
+	type rel struct{ dw, dh int } // root size = window size + (dw, dh)
+	for _, r := range []rel{{-3, -2}, {0, -2}, {-3, 0}, {0, 0}, {2, 1}, {-1, 1}, {2, -1}} {
+		for k := 0; k <= 3; k++ {
+			for side := 0; side < 6; side++ {
+				nextID = 0
+				cols, rows := 7+cfg.Rand.Intn(3), 5+cfg.Rand.Intn(2)
+				w, h := cols+r.dw, rows+r.dh
+				in := kid{Col: 1, Row: 0, T: filled(2, 1)}
+				over := kid{T: filled(3, 2), Z: pick([]int{0, 1, -1})}
+				switch side {
+				case 0: // bottom
+					over.Col, over.Row = 0, h-1
+				case 1: // right
+					over.Col, over.Row = w-1, 1
+				case 2: // bottom right corner
+					over.Col, over.Row = w-2, h-1
+				case 3: // top (negative row)
+					over.Col, over.Row = 2, -1
+				case 4: // left (negative column)
+					over.Col, over.Row = -2, 1
+				default: // inside
+					over.Col, over.Row = 1, 1
+				}
+				renderCase(s, cols, rows, nil, false, wrapperTree(w, h, k, []kid{in, over}), "directed-wrapper", fmt.Sprintf("overhang-side=%d", side))
+			}
+		}
+	}
 	n := 400
 	if cfg.Thorough() {
 		n = 15000
@@ -265,7 +445,107 @@ func renderStream() *hx.Stream {
 		if cfg.Rand.Intn(10) == 0 {
 			maxKids = 12 // sort.Slice is an insertion sort (stable) up to 12 elements
 		}
-		renderCase(s, 1+cfg.Rand.Intn(12), 1+cfg.Rand.Intn(6), genTree(depth, maxKids), fmt.Sprintf("depth=%d", depth))
+		renderCase(s, 1+cfg.Rand.Intn(12), 1+cfg.Rand.Intn(6), nil, false, genTree(depth, maxKids), fmt.Sprintf("depth=%d", depth))
+	}
+	n = 300
+	if cfg.Thorough() {
+		n = 12000
+	}
+	for i := 0; i < n; i++ {
+		nextID = 0
+		depth := 1 + cfg.Rand.Intn(3)
+		cols, rows := 1+cfg.Rand.Intn(12), 1+cfg.Rand.Intn(6)
+		w, h := genRootSize(cols), genRootSize(rows)
+		renderCase(s, cols, rows, nil, false, genShaped(depth, w, h), "shaped", fmt.Sprintf("depth=%d", depth))
+	}
+	return s
+}
+
+// a root size relative to the window size: smaller, equal, larger, zero
+func genRootSize(win int) int {
+	switch cfg.Rand.Intn(5) {
+	case 0:
+		return win
+	case 1:
+		return win + 1 + cfg.Rand.Intn(3)
+	case 2:
+		return cfg.Rand.Intn(3)
+	default:
+		if win > 1 {
+			return 1 + cfg.Rand.Intn(win-1)
+		}
+		return win
+	}
+}
+
+// a Window.New call on a window of size w x h, by class: the whole window, "-1 = the rest",
+// inset, shifted partly or wholly outside, negative origin, larger than the parent
+func genFrame(w, h int) frame {
+	switch cfg.Rand.Intn(7) {
+	case 0:
+		return frame{0, 0, w, h}
+	case 1:
+		return frame{cfg.Rand.Intn(3), cfg.Rand.Intn(2), -1, -1}
+	case 2:
+		return frame{1, 1, w - 2, h - 2}
+	case 3:
+		return frame{cfg.Rand.Intn(w + 2), cfg.Rand.Intn(h + 2), 1 + cfg.Rand.Intn(w+1), 1 + cfg.Rand.Intn(h+1)}
+	case 4:
+		return frame{-1 - cfg.Rand.Intn(2), -cfg.Rand.Intn(2), w, h}
+	case 5:
+		return frame{0, 0, w + 1 + cfg.Rand.Intn(3), h + 1 + cfg.Rand.Intn(3)}
+	default:
+		return frame{cfg.Rand.Intn(4), cfg.Rand.Intn(3), cfg.Rand.Intn(w + 1), cfg.Rand.Intn(h + 1)}
+	}
+}
+
+// renderwin stream: Surface.render into a window that is NOT the whole terminal: the terminal
+// window narrowed by 1..3 Window.New calls (the window may be larger than, equal to, smaller
+// than or partly outside the root surface, and offset on the screen)
+func renderwinStream() *hx.Stream {
+	s := hx.NewStream("renderwin", "model.Surface", "renderwin_input * render_obs", "c14_renderwin_mismatches", "c14_renderwin_violations")
+	s.ShardMax = 100
+	// directed: a window inset by one cell, a root smaller / equal / larger than it, wrappers
+	for _, d := range [][2]int{{-2, -1}, {0, 0}, {1, 1}, {0, -1}, {-2, 0}} {
+		for k := 0; k <= 2; k++ {
+			nextID = 0
+			cols, rows := 9, 6
+			fr := []frame{{1, 1, cols - 2, rows - 2}}
+			w, h := cols-2+d[0], rows-2+d[1]
+			inner := []kid{{Col: 0, Row: h - 1, T: filled(3, 2)}, {Col: w - 1, Row: 0, Z: 1, T: filled(2, 2)}, {Col: -1, Row: -1, Z: -1, T: filled(2, 2)}}
+			renderCase(s, cols, rows, fr, true, wrapperTree(w, h, k, inner), "directed-wrapper")
+		}
+	}
+	n := 300
+	if cfg.Thorough() {
+		n = 12000
+	}
+	for i := 0; i < n; i++ {
+		nextID = 0
+		cols, rows := 1+cfg.Rand.Intn(12), 1+cfg.Rand.Intn(6)
+		nf := 1 + cfg.Rand.Intn(3)
+		fr := make([]frame, nf)
+		w, h := cols, rows
+		for j := range fr {
+			fr[j] = genFrame(max(w, 0), max(h, 0))
+			// the size Window.New will give the frame (only used to generate the next one)
+			nw, nh := fr[j].W, fr[j].H
+			if nw < 0 || nw+fr[j].Col > w {
+				nw = w - fr[j].Col
+			}
+			if nh < 0 || nh+fr[j].Row > h {
+				nh = h - fr[j].Row
+			}
+			w, h = nw, nh
+		}
+		depth := cfg.Rand.Intn(4)
+		var t *tree
+		if cfg.Rand.Intn(2) == 0 {
+			t = genTree(depth, 4)
+		} else {
+			t = genShaped(depth, genRootSize(max(w, 0)), genRootSize(max(h, 0)))
+		}
+		renderCase(s, cols, rows, fr, true, t, "random", fmt.Sprintf("frames=%d", nf), fmt.Sprintf("depth=%d", depth))
 	}
 	return s
 }
@@ -273,7 +553,7 @@ func renderStream() *hx.Stream {
 func main() {
 	os.Unsetenv("COLORTERM")
 	cfg = hx.ParseFlags()
-	streams := []*hx.Stream{surfaceStream(), renderStream(), drawStream(), paintStream(), histStream()}
-	cfg.Write("C14", "surface: NewSurface(w,h) + a sequence of WriteCell calls (sizes 0..40 and around/above 65535 cells; coordinates inside, ==size, size+1, 65535, random), non-trivial = at least one write inside the surface; render: random surface trees (depth <= 3, <= 12 children per node, negative and overflowing offsets, tied and distinct z) rendered by Surface.render into the root window of a real Vaxis on a fake console, non-trivial = the tree has children; draw: Draw of Text/RichText (soft and hard wrap), Center, Button, TextField, list.Dynamic (fresh state) and nestings over Max in {0,1,2,3,7,255,256,65534,65535}^2 (products capped for the allocating widgets) and generated contents (empty, multi-line, wide, combining, longer/taller than the maximum, >65535 lines or columns), non-trivial = content does not fit the maximum or the widget is a container; paint: App.layout + render — Draw of a generated widget tree with Max = window size, rendered into the root window of a real Vaxis (1..24 x 1..8), non-trivial = some screen cell is painted; hist: ONE widget value (every kind above and nestings) built once and drawn 3..6 times with a sequence of constraints (directed: shown/collapsed/still collapsed with 0x0, w x 0, 0 x h; collapsed first; alternating; the same frame repeated; unbounded in between; growing; shrinking; fields changed while the constraint repeats — and random sequences that repeat earlier constraints) and with exported fields changed between draws (Content/Softwrap, segments, Value, Label, Gap, DrawCursor, fields of list items, contents becoming empty); every step records the surface the long-lived value returned (decided against the contract clauses and against the model's history), non-trivial = at least 3 draws with two different constraints or a field change",
+	streams := []*hx.Stream{surfaceStream(), renderStream(), renderwinStream(), drawStream(), paintStream(), histStream()}
+	cfg.Write("C14", "surface: NewSurface(w,h) + a sequence of WriteCell calls (sizes 0..40 and around/above 65535 cells; coordinates inside, ==size, size+1, 65535, random), non-trivial = at least one write inside the surface; render: surface trees rendered by Surface.render into the root window of a real Vaxis on a fake console — random trees (depth <= 3, <= 12 children per node, negative and overflowing offsets, tied and distinct z), directed wrapper trees (root smaller than / equal to / larger than the terminal on each axis, 0..3 same-size children at (0,0) nested in each other, innermost children inside and overhanging each side) and shaped random trees (wrappers, almost-wrappers one cell off in size or position, children larger than or sticking out of their parent, root sizes relative to the window), non-trivial = the tree has children; renderwin: the same into the terminal window narrowed by 1..3 Window.New calls (whole, rest -1, inset, shifted partly or wholly outside, negative origin, larger than the parent), non-trivial = the tree has children; draw: Draw of Text/RichText (soft and hard wrap), Center, Button, TextField, list.Dynamic (fresh state) and nestings over Max in {0,1,2,3,7,255,256,65534,65535}^2 (products capped for the allocating widgets) and generated contents (empty, multi-line, wide, combining, longer/taller than the maximum, >65535 lines or columns), non-trivial = content does not fit the maximum or the widget is a container; paint: App.layout + render — Draw of a generated widget tree with Max = window size, rendered into the root window of a real Vaxis (1..24 x 1..8), non-trivial = some screen cell is painted; hist: ONE widget value (every kind above and nestings) built once and drawn 3..6 times with a sequence of constraints (directed: shown/collapsed/still collapsed with 0x0, w x 0, 0 x h; collapsed first; alternating; the same frame repeated; unbounded in between; growing; shrinking; fields changed while the constraint repeats — and random sequences that repeat earlier constraints) and with exported fields changed between draws (Content/Softwrap, segments, Value, Label, Gap, DrawCursor, fields of list items, contents becoming empty); every step records the surface the long-lived value returned (decided against the contract clauses and against the model's history), non-trivial = at least 3 draws with two different constraints or a field change",
 		streams, drawExtra, nil)
 }
